@@ -66,7 +66,7 @@ pub struct RunLog {
 }
 
 struct Handle {
-    s: cfb::Stream<FF>,
+    s: ops::NoDropOnPanic<cfb::Stream<FF>>,
     path: String,
 }
 
@@ -177,7 +177,7 @@ impl Env {
             WStep::OpenStream(h, p) => {
                 let s = self.comp()?.open_stream(p).map_err(es)?;
                 let len = s.len();
-                self.set_handle(*h, Handle { s, path: p.clone() });
+                self.set_handle(*h, Handle { s: ops::NoDropOnPanic::new(s), path: p.clone() });
                 if let Some(t) = truth {
                     if let Some(d) = t.get(p) {
                         if len != d.len() as u64 {
@@ -197,7 +197,7 @@ impl Env {
                 let r = self.comp()?.create_stream(p);
                 match r {
                     Ok(s) => {
-                        self.set_handle(*h, Handle { s, path: p.clone() });
+                        self.set_handle(*h, Handle { s: ops::NoDropOnPanic::new(s), path: p.clone() });
                         self.content.insert(p.clone(), Some(Vec::new()));
                         Ok("created".into())
                     }
